@@ -3,5 +3,5 @@
 cd /verif
 for d in seeded/C*; do
   id=$(basename $d)
-  ./seedtest.sh $id $id
+  ./seedtest.sh $id
 done
